@@ -916,6 +916,13 @@ func Run(c *common.Ctx) error {
 		}
 	}
 	for _, kind := range []string{"file", "lfsc"} {
+		for _, between := range []bool{false, true} {
+			if err := recreatedOtherPageSize(c, c.Rng.Fork(), kind, between); err != nil {
+				return fmt.Errorf("%s/recreated-other-page-size: %w", kind, err)
+			}
+		}
+	}
+	for _, kind := range []string{"file", "lfsc"} {
 		if err := emptyThenWrite(c, c.Rng.Fork(), kind); err != nil {
 			return fmt.Errorf("%s/empty-then-write: %w", kind, err)
 		}
@@ -939,4 +946,77 @@ func buildLTX(ps uint32, commit uint32, min, max uint64, pre, post uint64, pages
 	enc.SetPostApplyChecksum(ltx.Checksum(post))
 	_ = enc.Close()
 	return buf.Bytes()
+}
+
+// recreatedOtherPageSize: the database is dropped and recreated with another page size, between two syncs (the drop and
+// the recreation in one batch) or with a sync in between. Repeated syncs on the idle primary still bring the service to
+// the primary's position, and what is restored from the service is the primary's database.
+func recreatedOtherPageSize(c *common.Ctx, r *common.Rand, kind string, syncBetween bool) error {
+	dir, err := os.MkdirTemp(c.OutDir, "c14p-")
+	if err != nil {
+		return err
+	}
+	defer os.RemoveAll(dir)
+	e := &env{c: c, r: r, kind: kind, svcDir: filepath.Join(dir, "svc")}
+	_ = os.MkdirAll(e.svcDir, 0o755)
+	e.fc = litefs.NewFileBackupClient(e.svcDir)
+	_ = e.fc.Open()
+	if kind == "lfsc" {
+		cl, err := newCloud(e.svcDir)
+		if err != nil {
+			return err
+		}
+		e.cloud = cl
+		defer cl.srv.Close()
+	}
+	p, err := e.newPrimary(filepath.Join(dir, "p"))
+	if err != nil {
+		return err
+	}
+	defer p.node.Close()
+	if err := p.commit(2); err != nil {
+		return err
+	}
+	if err := p.node.Store.SyncBackup(bg); err != nil {
+		return fmt.Errorf("first sync: %v", err)
+	}
+	if ob := p.h.Exec(hist.Step{Op: "drop"}); ob.Err != "" || ob.Panic != "" {
+		return fmt.Errorf("drop: %s%s", ob.Err, ob.Panic)
+	}
+	var errs []string
+	if syncBetween {
+		if err := p.node.Store.SyncBackup(bg); err != nil {
+			errs = append(errs, "after the drop: "+err.Error())
+		}
+	}
+	at := p.pos()
+	p.h = hist.NewOn(e.c, e.r.Fork(), hist.Config{PageSize: 1024}, p.node.Store, p.node.Exits, "db", &lfs.Image{PageSize: 1024}, at.txid, false)
+	if err := p.commit(2); err != nil {
+		return fmt.Errorf("recreated database: %w", err)
+	}
+	for i := 0; i < 4; i++ {
+		if err := p.node.Store.SyncBackup(bg); err != nil {
+			errs = append(errs, err.Error())
+		}
+	}
+	c.Evaluations++
+	c.Distinct(fmt.Sprintf("%s:recreated-other-page-size:%v", kind, syncBetween))
+	rep := map[string]any{"kind": "backup-recreated-other-page-size", "client": kind, "sync_between": syncBetween, "sync_errors": errs}
+	key := fmt.Sprintf("C14:%s:recreated-other-page-size", kind)
+	if sp, lp := e.svcPos(), p.pos(); sp != lp {
+		c.Violate(key+":no-convergence", fmt.Sprintf("a database dropped and recreated with 1024-byte pages (512 before; sync between drop and recreation: %v): after four syncs on the idle primary the service is at (%d,%016x), the primary at (%d,%016x); sync errors: %v", syncBetween, sp.txid, sp.chk, lp.txid, lp.chk, errs), rep)
+		return nil
+	}
+	img, rp, rerr := e.restoredImage()
+	if rerr != nil {
+		c.Violate(key+":restore", fmt.Sprintf("the service is at the primary's position, but nothing can be restored from it: %v", rerr), rep)
+		return nil
+	}
+	want, _ := lfs.ReadImage(filepath.Join(p.dir, "dbs", "db"))
+	if rp != p.pos() {
+		c.Violate(key+":restore-position", fmt.Sprintf("restored position (%d,%016x), primary (%d,%016x)", rp.txid, rp.chk, p.pos().txid, p.pos().chk), rep)
+	} else if eq, why := img.Equal(want); !eq {
+		c.Violate(key+":restore-image", "the restored database is not the primary's: "+why, rep)
+	}
+	return nil
 }
